@@ -277,9 +277,10 @@ Definition emit_text (origin : token) (st : est) : est :=
       tw_write_string_literal (chunk_text_escaped (t_lit origin)) st
     else
       let s := chunk_text_plain (t_lit origin) in
-      let s' := if is_preserve then
-                  let t := trim_suffix (lit "\n") s in
-                  t ++ brepeat (lit "&#x000A;") ((List.length s - List.length t) / 2)
+      (* the line break that ends a preserved text is looked for in the text, not in its quoted form *)
+      let t := trim_suffix [10] (t_lit origin) in
+      let s' := if is_preserve && negb (Nat.eqb (List.length t) (List.length (t_lit origin)))
+                then chunk_text_plain t ++ lit "&#x000A;"
                 else s in
       tw_write_string_literal s' st.
 
